@@ -1,4 +1,4 @@
 SPECIFICATION Spec
-CONSTANTS GN = 2  GE = 1  HN = 2  HE_ = 2  A = 1  NL = {0, 1}  EL = {0}  CN = 3  CE = 3  CA = 2
+CONSTANTS GN = 2  GE = 1  HN = 2  HE_ = 2  A = 1  NL = {0, 1}  EL = {0}  CN = 4  CE = 2  CA = 1
 INVARIANTS SearchTheorem InclusionTheorem
 CHECK_DEADLOCK FALSE
